@@ -339,6 +339,7 @@ type fakePG struct {
 	sentAll time.Time // first time a connection had every scripted message written
 	starts  []uint64  // LSN of every START_REPLICATION received
 	noStream bool     // connmgr: answer START_REPLICATION with CopyBoth and then just keep the connection
+	nstatus  int      // standby status updates that arrived on the wire (noStream mode)
 	closed  chan struct{}
 	wg      sync.WaitGroup
 }
@@ -503,8 +504,14 @@ startup:
 					return
 				}
 				for { // hold the connection until the client or the harness closes it
-					if _, err := be.Receive(); err != nil {
+					fm, err := be.Receive()
+					if err != nil {
 						return
+					}
+					if d, ok := fm.(*pgproto3.CopyData); ok && len(d.Data) == 34 && d.Data[0] == 'r' {
+						s.mu.Lock()
+						s.nstatus++
+						s.mu.Unlock()
 					}
 				}
 			}
